@@ -215,7 +215,8 @@ def oracle17(case, lines):
 
 
 # ------------------------------------------------------------------------------------------ lib13
-SIZES = [0, 1, 5, 8191, 8192, 8193, 65537]
+SIZES = [0, 1, 5, 8191, 8192, 8193, 8200, 16384, 16385, 65537]
+CSEEDS = [0, 1, 2, 3, 100, 100, 101]   # >= 100: uniform content (all bytes seed-100)
 
 
 def gen13(rng, n=30):
@@ -233,13 +234,22 @@ def gen13(rng, n=30):
         p = rng.randrange(np_)
         r = rng.random()
         if r < 0.16:
-            size, cseed, mt = rng.choice(SIZES if rng.random() < 0.5 else [0, 1, 2, 3, 10]), rng.randint(0, 3), rng.randint(1, 5)
+            size, cseed, mt = rng.choice(SIZES if rng.random() < 0.5 else [0, 1, 2, 3, 10]), rng.choice(CSEEDS), rng.randint(1, 5)
             ops.append(f"mkfile {p} {size} {cseed} {mt}"); lastfile[p] = (size, cseed, mt)
+        elif r < 0.22 and p in lastfile and lastfile[p][1] >= 100:
+            # uniform content that only grows or shrinks (same bytes, other length; same modification time)
+            size, cseed, mt = lastfile[p]
+            size = max(0, size + rng.choice([-7, -1, 1, 7, 300]))
+            ops.append(f"mkfile {p} {size} {cseed} {mt}"); lastfile[p] = (size, cseed, mt)
+            mine = [k for k, (c, p0) in kinds.items() if p0 == p]
+            if mine:
+                k = rng.choice(mine); ops.append(f"check {kinds[k][0]} {p} {k}")
+            ops.append(f"stamp H {rng.choice(['path', 'reader'])} {p}"); kinds[nstamps] = ("H", p); nstamps += 1
         elif r < 0.20 and p in lastfile and lastfile[p][0] > 0:
             # same path rewritten with the SAME size and modification time but different content (restored/copied file,
             # coarse timestamps): only the content hash can tell; then check an earlier stamp of this path
             size, cseed, mt = lastfile[p]
-            cseed = (cseed + rng.randint(1, 3)) % 4
+            cseed = (cseed + rng.randint(1, 3)) % 4 if cseed < 100 else 201 - cseed
             ops.append(f"mkfile {p} {size} {cseed} {mt}"); lastfile[p] = (size, cseed, mt)
             mine = [k for k, (c, p0) in kinds.items() if p0 == p]
             if mine:
@@ -291,9 +301,11 @@ def oracle13(case, lines):
     ver = {}     # p -> version counter (bumped by every modifying op)
     stamps = []  # (checker, p, text, state at stamp, version)
     import re
+    def byte(seed, i): return (seed - 100) if seed >= 100 else (seed * 31 + i * 7) % 251
+
     def content_sum(size, seed):
         a = 0
-        for i in range(size): a = (a * 31 + (seed * 31 + i * 7) % 251) % 1000003
+        for i in range(size): a = (a * 31 + byte(seed, i)) % 1000003
         return a
     def bump(p): ver[p] = ver.get(p, 0) + 1
     for l in lines:
@@ -353,7 +365,7 @@ def oracle13(case, lines):
                 if not cur or not st0: want = "consistent" if (not cur and not st0) else "inconsistent"
                 elif cur[0] == "file" and st0[0] == "file":
                     same = (cur[1] == st0[1]) and (cur[1] == 0 or content_sum(cur[1], cur[2]) == content_sum(st0[1], st0[2])) and \
-                           [(cur[2] * 31 + i * 7) % 251 for i in range(min(cur[1], 64))] == [(st0[2] * 31 + i * 7) % 251 for i in range(min(st0[1], 64))]
+                           [byte(cur[2], i) for i in range(min(cur[1], 64))] == [byte(st0[2], i) for i in range(min(st0[1], 64))]
                     want = "consistent" if same else "inconsistent"
                 elif cur[0] == "dir" and st0[0] == "dir":
                     want = "inconsistent" if cur[1] != st0[1] else None     # same name set but touched: not claimed
